@@ -712,10 +712,20 @@ fn parse_define_arg(
 		{
 			let has_negative_sign = split[1].chars().next() == Some('-');
 
-			let maybe_value = syntax::excerpt_as_bigint(
-				None,
-				diagn::Span::new_dummy(),
-				if has_negative_sign { split[1].get(1..).unwrap() } else { split[1] });
+			let digits =
+				if has_negative_sign { split[1].get(1..).unwrap() } else { split[1] };
+
+			let maybe_value = {
+				if digits.is_empty()
+					{ Err(()) }
+				else
+				{
+					syntax::excerpt_as_bigint(
+						None,
+						diagn::Span::new_dummy(),
+						digits)
+				}
+			};
 
 
 			use std::ops::Neg;
